@@ -8,18 +8,24 @@ VARIABLE i
 Init == i = 1
 Bad(clause, ex) == PrintT(<<"EMIT", ToJson([ev |-> i, clause |-> clause, expected |-> ex])>>)
 Chk(ok, clause, ex) == IF ok THEN TRUE ELSE Bad(clause, ex)
+\* the requests supply k_1, k_2, .. symbols, each k >= 1, n in all
+RECURSIVE SumK(_)
+SumK(rs) == IF rs = <<>> THEN 0 ELSE rs[1].k + SumK(Tail(rs))
+Covers(rs, n) == (\A j \in 1..Len(rs) : rs[j].k >= 1) /\ SumK(rs) = n
 Next ==
     /\ i <= Len(Trace) /\ i' = i + 1
     /\ LET e == Trace[i] IN
        CASE e.op = "bytes" ->
-              \* one request of 8*n bits; output byte k = byte k of the value
-              /\ Chk(e.requests = <<[fn |-> "getrandbits", arg |-> 8 * e.n]>>, "request", <<8 * e.n>>)
+              \* the n bytes are drawn by one or several getrandbits requests of whole bytes (any partition); output = the values' bytes,
+              \* least significant first, in request order
+              /\ Chk(Covers(e.requests, e.n) /\ \A k \in 1..Len(e.requests) : e.requests[k].fn = "getrandbits", "request", <<8 * e.n>>)
               /\ Chk(e.out = e.digits /\ Len(e.out) = e.n, "output", e.digits)
          [] e.op = "str" ->
+              \* the n symbols are drawn by one or several requests uniform on L^k values each (randrange / choice / randint)
               /\ Chk(IF e.L = 1 THEN e.requests = <<>>
-                     ELSE Len(e.requests) = 1 /\ e.requests[1].fn = "randrange" /\ LEq(e.requests[1].arg, LPow(e.L, e.n)), "request", LPow(e.L, e.n))
-              /\ Chk(Len(e.out) = e.n /\ \A k \in 1..e.n : e.out[k] = e.abc[(IF e.L = 1 THEN 0 ELSE e.digits[k]) + 1], "output",
-                     [k \in 1..e.n |-> e.abc[(IF e.L = 1 THEN 0 ELSE e.digits[k]) + 1]])
+                     ELSE Covers(e.requests, e.n) /\ \A k \in 1..Len(e.requests) : e.requests[k].fn \in {"randrange", "choice", "randint"}, "request", <<e.L, e.n>>)
+              /\ Chk(Len(e.out) = e.n /\ Len(e.digits) = e.n /\ \A k \in 1..e.n : e.out[k] = e.abc[(IF e.L = 1 THEN 0 ELSE e.digits[k]) + 1], "output",
+                     [k \in 1..e.n |-> e.abc[(IF e.L = 1 \/ k > Len(e.digits) THEN 0 ELSE e.digits[k]) + 1]])
          [] e.op = "bcrypt-salt" ->
               \* 22 symbols drawn as for "str", then the unused bits of the last one are cleared
               LET raw == [k \in 1..22 |-> e.abc[e.digits[k] + 1]] IN
